@@ -119,21 +119,21 @@ def r_entry(chk, P, tier):
 
 def r_year_box(chk, P, tier):
     """RFC 3339 `date-fullyear = 4DIGIT`: exactly the years 0..=9999 take the plain four-digit form; the reader (and C09) rely on the same split"""
-    chk.rule("BOX.plain_year", "write_rfc3339 uses the plain four-digit year form exactly for 0..=9999 (range test on year())", floor=1)
-    rngs = set()
+    chk.rule("BOX.plain_year", "write_rfc3339 uses the plain four-digit year form (write_hundreds(year / 100), write_hundreds(year % 100)) exactly for 0..=9999", floor=1)
+    boxes = []
     for p in Sym(P, WR).paths():
-        for t in [c[1] for c in p.conds]:
-            for x in walk_terms(t):
-                if x[0] == "call" and isinstance(x[1], str) and x[1].endswith("::contains") and "Range" in x[1] and any(is_call(y, suffix="::year") for y in walk_terms(x[2][1])):
-                    from rules import unref
-                    r = const_of(unref(x[2][0]))
-                    if isinstance(r, tuple):
-                        fs = dict(dict(r).get("fields", ()))
-                        lo, hi = fs.get("start"), fs.get("end")
-                        rngs.add((lo, hi if "Inclusive" in x[1] else (hi - 1 if isinstance(hi, int) else hi)))
-    if not rngs:
-        raise AnchorLost("write_rfc3339: no range test on year()")
-    chk.expect(rngs == {(0, 9999)}, "year range", "write_rfc3339 takes the four-digit form for years in %s, expected exactly 0..=9999" % sorted(rngs), loc=P.loc(WR))
+        ys = [x[2] for c in p.calls if isinstance(c[1], str) and c[1].endswith("write_hundreds") for x in walk_terms(c[2][1])
+              if x[0] == "bin" and x[1] == "Div" and const_of(x[3]) == 100 and any(is_call(y, suffix="::year") for y in walk_terms(x[2]))]
+        if not ys:
+            continue
+        box, other = cond_constraints(p.conds, {"year": ys[0]})
+        boxes.append(tuple(box["year"]))
+    if not boxes:
+        raise AnchorLost("write_rfc3339: no path writes the year as two digit pairs")
+    lo = min((b[0] for b in boxes if b[0] is not None), default=None)
+    hi = max((b[1] for b in boxes if b[1] is not None), default=None)
+    ok = all(b[0] is not None and b[1] is not None for b in boxes) and (lo, hi) == (0, 9999)
+    chk.expect(ok, "year range", "write_rfc3339 takes the four-digit form for years in %s, expected exactly 0..=9999" % sorted(set(boxes)), loc=P.loc(WR))
 
 
 def r_writer(chk, P, tier):
